@@ -1,7 +1,7 @@
 ---------------------------- MODULE GqlResponse ----------------------------
 (* C10 response-format judge.  One case = one request handled by a top-level entry point, projected by the harness:
      raised     "" or the class name of an exception that escaped the entry point
-     outcome    syntax | invalid | noop | badvars | executed   (what the request must lead to: from GqlRequest, from the
+     outcome    syntax | invalid | noop | badvars | execfail | executed   (what the request must lead to: from GqlRequest, from the
                 C01-verified parser / validator for texts, or "executed" for GqlSched plans)
      hasData, dataNull, jsonOk (json.dumps(allow_nan=False) and result.json() both succeed)
      lineLens   length of every line of the submitted document (lines split at LF, CR, CRLF)
@@ -26,7 +26,7 @@ Clauses(c) ==
   ELSE
    (IF ~c.jsonOk THEN {"not-strict-json"} ELSE {})
    \cup (IF c.outcome \in {"syntax", "invalid"} /\ c.hasData THEN {"data-present-after-parse-or-validation-failure"} ELSE {})
-   \cup (IF c.outcome \in {"syntax", "invalid", "badvars", "noop"} /\ Len(c.errors) = 0 THEN {"failure-without-error"} ELSE {})
+   \cup (IF c.outcome \in {"syntax", "invalid", "badvars", "noop", "execfail"} /\ Len(c.errors) = 0 THEN {"failure-without-error"} ELSE {})
    \cup (IF c.outcome = "executed" /\ ~c.hasData THEN {"executed-without-data"} ELSE {})
    \cup (IF \E i \in 1..Len(c.errors) : ~c.errors[i].msgIsStr THEN {"message-not-a-string"} ELSE {})
    \cup (IF \E i \in 1..Len(c.errors) : \E j \in 1..Len(c.errors[i].locs) : ~LocKeysOk(c.errors[i].locs[j]) THEN {"location-keys"} ELSE {})
